@@ -227,4 +227,212 @@ theorem wbFrom_of_meta (l : List (Ev α)) (h : ∀ ev ∈ l, IsMetaEv ev) : WBFr
     have := h ev List.mem_cons_self
     cases ev <;> first | rfl | cases this
 
+/-! ### the pull parser's stream is well bracketed -/
+
+def QDiag (ev : Ev α) : Prop := (∃ d, ev = .error d) ∨ (∃ d, ev = .warning d)
+def QStep (ev : Ev α) : Prop := QDiag ev ∨ StepContent ev
+def QText (ev : Ev α) : Prop := QDiag ev ∨ ∃ t, ev = .text t
+
+instance : DiagQ (QDiag (α := α)) := ⟨fun d => Or.inl ⟨d, rfl⟩, fun d => Or.inr ⟨d, rfl⟩⟩
+instance : DiagQ (QStep (α := α)) := ⟨fun d => Or.inl (Or.inl ⟨d, rfl⟩), fun d => Or.inl (Or.inr ⟨d, rfl⟩)⟩
+instance : DiagQ (QText (α := α)) := ⟨fun d => Or.inl (Or.inl ⟨d, rfl⟩), fun d => Or.inl (Or.inr ⟨d, rfl⟩)⟩
+instance {base : Array (Ev α)} : StepStable (ExtQ base (QStep (α := α))) :=
+  ⟨fun evs ev hc h => h.push (Or.inr hc)⟩
+instance {base : Array (Ev α)} : TextStable (ExtQ base (QText (α := α))) :=
+  ⟨fun evs t h => h.push (Or.inr ⟨t, rfl⟩)⟩
+
+theorem wbStep_diag {ev : Ev α} (h : QDiag ev) (o : Option BlockKind) : wbStep o ev = some o := by
+  rcases h with ⟨d, rfl⟩ | ⟨d, rfl⟩ <;> rfl
+
+theorem wbStep_step {ev : Ev α} (h : QStep ev) : wbStep (some .step) ev = some (some .step) := by
+  rcases h with h | ⟨t, rfl⟩ | ⟨_, hc⟩
+  · exact wbStep_diag h _
+  · rfl
+  · cases ev <;> first | rfl | cases hc
+
+theorem wbStep_text {ev : Ev α} (h : QText ev) : wbStep (some .text) ev = some (some .text) := by
+  rcases h with h | ⟨t, rfl⟩
+  · exact wbStep_diag h _
+  · rfl
+
+theorem wbFrom_stay (o : Option BlockKind) (l rest : List (Ev α)) (h : ∀ e ∈ l, wbStep o e = some o)
+    (hr : WBFrom o rest) : WBFrom o (l ++ rest) := by
+  induction l with
+  | nil => exact hr
+  | cons e l ih =>
+    exact ⟨o, h e List.mem_cons_self, ih (fun e' he' => h e' (List.mem_cons_of_mem _ he'))⟩
+
+/-- the events one block contributes: from "no block open" back to "no block open" -/
+def Closed (l : List (Ev α)) : Prop := ∀ rest, WBFrom none rest → WBFrom none (l ++ rest)
+
+theorem Closed.nil : Closed ([] : List (Ev α)) := fun _ h => h
+
+theorem Closed.append {a b : List (Ev α)} (ha : Closed a) (hb : Closed b) : Closed (a ++ b) := by
+  intro rest hr
+  rw [List.append_assoc]
+  exact ha _ (hb _ hr)
+
+theorem Closed.diag {l : List (Ev α)} (h : ∀ e ∈ l, QDiag e) : Closed l :=
+  fun rest hr => wbFrom_stay none l rest (fun e he => wbStep_diag (h e he) _) hr
+
+theorem Closed.block (k : BlockKind) {l : List (Ev α)} (h : ∀ e ∈ l, wbStep (some k) e = some (some k)) :
+    Closed (Ev.start k :: (l ++ [Ev.stop k])) := by
+  intro rest hr
+  refine ⟨some k, rfl, ?_⟩
+  show WBFrom (some k) ((l ++ [Ev.stop k]) ++ rest)
+  rw [List.append_assoc]
+  refine wbFrom_stay (some k) l _ h ?_
+  exact ⟨none, by simp [wbStep], hr⟩
+
+/-- running `m` from an empty extension: the events appended satisfy `Q` -/
+theorem appends_of_keeps {β : Type} {Q : Ev α → Prop} {R : β → Prop} {m : P α β}
+    (h : ∀ base, Keeps (ExtQ base Q) m R) (s : BP α) :
+    ∃ l : List (Ev α), (m s).2.evs = s.evs ++ l.toArray ∧ (∀ e ∈ l, Q e) ∧ R (m s).1 := by
+  obtain ⟨⟨l, h1, h2⟩, h3⟩ := (h s.evs).run s (ExtQ.refl _ _)
+  exact ⟨l, h1, h2, h3⟩
+
+theorem parseStep_closed (s : BP α) :
+    ∃ l : List (Ev α), (parseStep s).2.evs = s.evs ++ l.toArray ∧ Closed l := by
+  have hk : ∀ base, Keeps (ExtQ base (QStep (α := α))) (do stepLoop (α := α) ((← restToks).length)) (fun _ => True) := by
+    intro base; keeps
+  obtain ⟨l, h1, h2, -⟩ := appends_of_keeps hk { s with evs := s.evs.push (.start .step) }
+  refine ⟨Ev.start .step :: (l ++ [Ev.stop .step]), ?_, Closed.block .step (fun e he => wbStep_step (h2 e he))⟩
+  show ((do stepLoop (α := α) ((← restToks).length)) { s with evs := s.evs.push (.start .step) }).2.evs.push (.stop .step) = _
+  rw [h1]
+  simp
+
+theorem parseTextBlock_closed (s : BP α) :
+    ∃ l : List (Ev α), (parseTextBlock s).2.evs = s.evs ++ l.toArray ∧ Closed l := by
+  have hk : ∀ base, Keeps (ExtQ base (QText (α := α))) (do textBlockLoop (α := α) ((← restToks).length)) (fun _ => True) := by
+    intro base; keeps
+  obtain ⟨l, h1, h2, -⟩ := appends_of_keeps hk { s with evs := s.evs.push (.start .text) }
+  refine ⟨Ev.start .text :: (l ++ [Ev.stop .text]), ?_, Closed.block .text (fun e he => wbStep_text (h2 e he))⟩
+  show ((do textBlockLoop (α := α) ((← restToks).length)) { s with evs := s.evs.push (.start .text) }).2.evs.push (.stop .text) = _
+  rw [h1]
+  simp
+
+/-- `m` appends a closed group of events and returns a result satisfying `R` -/
+structure ClosedM {β : Type} (m : P α β) (R : β → Prop) : Prop where
+  run : ∀ s : BP α, ∃ l : List (Ev α), (m s).2.evs = s.evs ++ l.toArray ∧ Closed l ∧ R (m s).1
+
+theorem ClosedM.bind {β γ : Type} {m : P α β} {k : β → P α γ} {R : β → Prop} {R' : γ → Prop}
+    (hm : ClosedM m R) (hk : ∀ a, R a → ClosedM (k a) R') : ClosedM (m >>= k) R' := by
+  constructor
+  intro s
+  obtain ⟨l1, h1, c1, r1⟩ := hm.run s
+  obtain ⟨l2, h2, c2, r2⟩ := (hk _ r1).run (m s).2
+  refine ⟨l1 ++ l2, ?_, c1.append c2, r2⟩
+  show ((k (m s).1) (m s).2).2.evs = _
+  rw [h2, h1]; simp
+
+theorem ClosedM.pure {β : Type} {a : β} {R : β → Prop} (h : R a) : ClosedM (Pure.pure a : P α β) R :=
+  ⟨fun s => ⟨[], by simp [Pure.pure, StateT.pure], Closed.nil, h⟩⟩
+
+/-- a parser that only pushes diagnostics -/
+theorem ClosedM.of_diag {β : Type} {m : P α β} {R : β → Prop}
+    (h : ∀ base, Keeps (ExtQ base (QDiag (α := α))) m R) : ClosedM m R := by
+  constructor
+  intro s
+  obtain ⟨l, h1, h2, h3⟩ := appends_of_keeps h s
+  exact ⟨l, h1, Closed.diag h2, h3⟩
+
+theorem closing_parseMultilineBlock_closed : ClosedM (parseMultilineBlock (α := α)) (fun _ => True) := by
+  unfold parseMultilineBlock
+  refine ClosedM.bind (ClosedM.of_diag (fun _ => allToks_keeps)) (fun all _ => ?_)
+  split
+  · exact ClosedM.bind (ClosedM.of_diag (fun _ => consumeRest_keeps)) (fun _ _ => ClosedM.pure trivial)
+  · refine ClosedM.bind (ClosedM.of_diag (fun _ => peekK_keeps)) (fun k _ => ?_)
+    split
+    · exact ⟨fun s => by obtain ⟨l, h1, h2⟩ := parseTextBlock_closed s; exact ⟨l, h1, h2, trivial⟩⟩
+    · exact ⟨fun s => by obtain ⟨l, h1, h2⟩ := parseStep_closed s; exact ⟨l, h1, h2, trivial⟩⟩
+
+/-- the event of a single-line block -/
+def IsSingle (ev : Ev α) : Prop := (∃ n, ev = .«section» n) ∨ ∃ k v, ev = .metadata k v
+def RSingle (r : Option (Ev α)) : Prop := ∀ ev, r = some ev → IsSingle ev
+
+theorem closing_pushSingle_closed {ev : Ev α} (h : IsSingle ev) : ClosedM (pushEv ev) (fun _ => True) := by
+  constructor
+  intro s
+  refine ⟨[ev], by simp [pushEv, modify, modifyGet, MonadStateOf.modifyGet, StateT.modifyGet, Pure.pure], ?_, trivial⟩
+  intro rest hr
+  refine ⟨none, ?_, hr⟩
+  rcases h with ⟨n, rfl⟩ | ⟨k, v, rfl⟩ <;> rfl
+
+theorem closing_parseBlock_closed (oldStyle : Bool) : ClosedM (parseBlock (α := α) oldStyle) (fun _ => True) := by
+  unfold parseBlock
+  apply ClosedM.bind (R := RSingle)
+  · apply ClosedM.of_diag
+    intro base
+    have h1 := (closing_sectionP_keeps (α := α) (I := ExtQ base QDiag)).mono
+      (R' := RSingle) (fun r hr ev he => Or.inl (hr ev he))
+    have h2 := closing_metadataEntry_keeps (α := α) (I := ExtQ base QDiag)
+    keeps
+    all_goals (
+      refine Keeps.pure ?_
+      intro ev he
+      first | (cases he; done) | (cases he; exact Or.inr ⟨_, _, rfl⟩))
+  · intro r hr
+    split
+    · rename_i ev
+      exact closing_pushSingle_closed (hr ev rfl)
+    · exact closing_parseMultilineBlock_closed
+
+theorem closing_runBlock_closed (cs : CharSpec) (ext : Ext) (oldStyle : Bool) (b : List Tok)
+    (evs : Array (Ev α)) (panic : Option String) :
+    ∃ l : List (Ev α), (runBlock cs ext oldStyle b evs panic).1 = evs ++ l.toArray ∧ Closed l := by
+  have key : ClosedM (do
+      if b.isEmpty then panicWith "BlockParser::new: empty tokens"
+      parseBlock (α := α) oldStyle
+      let s ← get
+      if s.cur ≠ s.toks.length then panicWith "Block tokens not parsed") (fun _ => True) := by
+    have hp : ∀ site, ClosedM (panicWith (α := α) site) (fun _ => True) :=
+      fun site => ClosedM.of_diag (fun _ => Keeps.panicWith site)
+    have tail : ClosedM (do
+        parseBlock (α := α) oldStyle
+        let s ← get
+        if s.cur ≠ s.toks.length then panicWith "Block tokens not parsed") (fun _ => True) := by
+      refine ClosedM.bind (closing_parseBlock_closed oldStyle) (fun _ _ => ?_)
+      refine ClosedM.bind (R := fun _ => True) (ClosedM.of_diag (fun _ => ⟨fun s hs => ⟨hs, trivial⟩⟩)) (fun s0 _ => ?_)
+      split
+      · exact hp _
+      · exact ClosedM.pure trivial
+    dsimp only
+    split
+    · exact ClosedM.bind (hp _) (fun _ _ => tail)
+    · exact tail
+  obtain ⟨l, h1, h2, -⟩ := key.run ⟨b, 0, ext, cs, evs, panic⟩
+  exact ⟨l, h1, h2⟩
+
+theorem closing_foldl_runBlock_closed (cs : CharSpec) (ext : Ext) (oldStyle : Bool) (blocks : List (List Tok))
+    (acc : Array (Ev α) × Option String) :
+    ∃ l : List (Ev α), (blocks.foldl (fun acc b => runBlock (α := α) cs ext oldStyle b acc.1 acc.2) acc).1 =
+      acc.1 ++ l.toArray ∧ Closed l := by
+  induction blocks generalizing acc with
+  | nil => exact ⟨[], by simp, Closed.nil⟩
+  | cons b bs ih =>
+    rw [List.foldl_cons]
+    obtain ⟨l1, h1, c1⟩ := closing_runBlock_closed cs ext oldStyle b acc.1 acc.2
+    obtain ⟨l2, h2, c2⟩ := ih (runBlock cs ext oldStyle b acc.1 acc.2)
+    exact ⟨l1 ++ l2, by rw [h2, h1]; simp, c1.append c2⟩
+
+/-- **the pull parser's event stream is well bracketed** -/
+theorem pullEvents_wellBracketed (cs : CharSpec) (ext : Ext) (input : List Char) :
+    WellBracketed (pullEvents (α := α) cs ext input).1.toList := by
+  unfold pullEvents
+  split
+  rename_i toks evs0 oldStyle heq
+  obtain ⟨l, h1, c⟩ := closing_foldl_runBlock_closed (α := α) cs ext oldStyle
+    (allBlocks (toks.length + 1) toks) (evs0, none)
+  rw [h1]
+  split at heq
+  · simp only [Prod.mk.injEq] at heq
+    rw [← heq.2.1]
+    simp only [Array.toList_append, List.toList_toArray]
+    exact ⟨none, rfl, by simpa using c [] trivial⟩
+  · simp only [Prod.mk.injEq] at heq
+    rw [← heq.2.1]
+    simp only [Array.toList_append, List.toList_toArray]
+    show WBFrom none _
+    simpa using c [] trivial
+
 end Cook
